@@ -321,7 +321,10 @@ def extra(ctx):
         done = ctx.hist.get("cases_with_completed_rung", 0) / n
         ctx.notes["generator_targets"] = {"cases": n, "two_or_more_open_brackets": round(open2, 3),
                                           "completed_rung": round(done, 3), "required": {"open": 0.4, "completed": 0.8}}
-        if open2 < 0.4 or done < 0.8:
+        # only meaningful when the run is otherwise clean: a broken implementation (findings,
+        # disagreements) cuts scenarios short and must be reported as such, not as a weak generator
+        new = [f for f in ctx.findings if f["signature"] != "c05:failed-trial-promoted"]
+        if (open2 < 0.4 or done < 0.8) and not new and not ctx.disagreements:
             raise RuntimeError(f"weak generator: 2+ open brackets in {open2:.2f} of the cases (need 0.40), "
                                f"completed rung in {done:.2f} (need 0.80)")
     ctx.notes["counterexample_replay"] = {
